@@ -99,14 +99,7 @@ pub fn check(v: &View, vd: &mut Verdict) {
                     // (once no in-flight operation holds a temporary): 48 items in a row mean it was not looked at
                     // (an operation in flight holds a temporary strong handle, and one that begins meanwhile - a
                     // weak call that still upgrades - prolongs that: take the closure)
-                    let mut from = z;
-                    loop {
-                        let next = v.ops.iter().filter(|p| p.actor == Some(a) && p.begin < from && p.end_or_max() > from).map(|p| p.end_or_max()).max();
-                        match next {
-                            Some(n) if n > from => from = n,
-                            _ => break,
-                        }
-                    }
+                    let from = v.quiet_after(a, z);
                     // (the broker holds upgraded senders while it fans a publication out, a timer whose waiting
                     // send is blocked holds one too: then the mailbox is not closed yet)
                     let waiting_timer = matches!(v.rt[a].mailbox, Mailbox::Bounded(_))
